@@ -98,13 +98,11 @@ func dedupLoop(configArgs map[string]string, w *fsnotify.Watcher, completedChann
 		regenerateMutex.Lock()
 		defer regenerateMutex.Unlock()
 
-		dirsToWatch := generateInWatchMode(configArgs)
-		if dirsToWatch != nil && len(dirsToWatch) > len(w.WatchList()) {
-			for _, dir := range dirsToWatch {
-				if err := w.Add(dir); err != nil {
-					completedChannel <- err
-					return
-				}
+		// Watch the directory of every referenced package; adding a directory again is harmless
+		for _, dir := range generateInWatchMode(configArgs) {
+			if err := w.Add(dir); err != nil {
+				completedChannel <- err
+				return
 			}
 		}
 
